@@ -280,7 +280,7 @@ func compactNumber(dst, src []byte, cursor int64) ([]byte, int64, error) {
 	num := src[start:cursor]
 	if _, err := strconv.ParseFloat(*(*string)(unsafe.Pointer(&num)), 64); err != nil {
 		// a number too large for float64 is still a number of the JSON grammar: it is copied as it is
-		if ne, ok := err.(*strconv.NumError); !ok || ne.Err != strconv.ErrRange {
+		if ne, ok := err.(*strconv.NumError); !ok || ne == nil || ne.Err != strconv.ErrRange {
 			return nil, 0, err
 		}
 	}
